@@ -79,13 +79,13 @@ fn enum_from(
         if variants.len() == 1 {
             let variant = &variants[0];
             cases.push(quote! {
-                #canonical => #input_type::#variant,
+                #canonical => #input_type::#variant {},
             })
         } else {
             for variant in variants {
                 let variant_str = variant.unraw().to_string();
                 cases.push(quote! {
-                    #canonical if(src == #variant_str) => #input_type::#variant,
+                    #canonical if(src == #variant_str) => #input_type::#variant {},
                 })
             }
         }
